@@ -1,14 +1,247 @@
-// Harness for C42 (see storeh for the ops).
+// Harness for C42: Store.MeasurementNames / TagKeys / TagValues on a real multi-shard
+// tsdb.Store (tsi1 + tsm1) with writes, range deletes with predicates and random
+// fine-grained authorizers.  Ops: see verif/harness/cmd/c17/storeh.
 package main
 
 import (
+	"fmt"
+	"sort"
+	"strings"
 	"time"
 
 	"verif/harness/cmd/c17/storeh"
 	"verif/harness/h"
 )
 
-func gen(r *h.Rand, tier string, emit func([]string)) {}
+type pools struct {
+	names, keys [][]byte
+	vals        map[string][][]byte
+}
+
+var nameChoices = []string{"m", "m1", "m2", "cpu", "mem", "a b", "c,d", "disk"}
+var keyChoices = []string{"t", "u", "host", "k 1", "reg", "z"}
+var valChoices = []string{"a", "b", "c", "x y", "v,1", "w=2", "zz", "0"}
+
+func pickSome(r *h.Rand, from []string, n int) [][]byte {
+	idx := map[int]bool{}
+	for len(idx) < n {
+		idx[r.Intn(len(from))] = true
+	}
+	var is []int
+	for i := range idx {
+		is = append(is, i)
+	}
+	sort.Ints(is)
+	var out [][]byte
+	for _, i := range is {
+		out = append(out, []byte(from[i]))
+	}
+	return out
+}
+
+func genPools(r *h.Rand) pools {
+	p := pools{vals: map[string][][]byte{}}
+	p.names = pickSome(r, nameChoices, 2+r.Intn(2))
+	p.keys = pickSome(r, keyChoices, 2+r.Intn(2))
+	for _, k := range p.keys {
+		p.vals[string(k)] = pickSome(r, valChoices, 2+r.Intn(2))
+	}
+	return p
+}
+
+func (p pools) series(r *h.Rand) (string, string) {
+	name := h.Pick(r, p.names)
+	var ks []string
+	for _, k := range p.keys {
+		if r.Chance(0.6) {
+			ks = append(ks, string(k))
+		}
+	}
+	sort.Strings(ks)
+	var ts []string
+	for _, k := range ks {
+		ts = append(ts, h.HexS(k)+":"+h.Hex(h.Pick(r, p.vals[k])))
+	}
+	return h.Hex(name), h.Join(ts)
+}
+
+func genPts(r *h.Rand) string {
+	n := 1 + r.Intn(3)
+	var ps []string
+	for i := 0; i < n; i++ {
+		ps = append(ps, fmt.Sprintf("%d:%d", r.Range(-5, 20), r.Range(0, 99)))
+	}
+	return strings.Join(ps, ",")
+}
+
+func (p pools) rule(r *h.Rand, measKey string, neqP float64, emptyP float64) string {
+	op := "E"
+	if r.Chance(neqP) {
+		op = "N"
+	}
+	if measKey != "" && r.Chance(0.3) {
+		v := h.Pick(r, p.names)
+		if r.Chance(0.1) {
+			v = []byte("nope")
+		}
+		return op + ":" + h.HexS(measKey) + ":" + h.Hex(v)
+	}
+	k := h.Pick(r, p.keys)
+	v := h.Pick(r, p.vals[string(k)])
+	if r.Chance(0.1) {
+		v = []byte("nope")
+	}
+	if r.Chance(emptyP) {
+		v = nil
+	}
+	return op + ":" + h.Hex(k) + ":" + h.Hex(v)
+}
+
+func (p pools) tree(r *h.Rand, depth int, measKey string, neqP, emptyP float64) []string {
+	if depth == 0 || r.Chance(0.45) {
+		return []string{p.rule(r, measKey, neqP, emptyP)}
+	}
+	op := "A"
+	if r.Chance(0.55) {
+		op = "O"
+	}
+	out := []string{op}
+	out = append(out, p.tree(r, depth-1, measKey, neqP, emptyP)...)
+	out = append(out, p.tree(r, depth-1, measKey, neqP, emptyP)...)
+	return out
+}
+
+func (p pools) auth(r *h.Rand) string {
+	switch {
+	case r.Chance(0.35):
+		return "-"
+	case r.Chance(0.2):
+		return "open"
+	}
+	var rules []string
+	n := 1 + r.Intn(2)
+	for i := 0; i < n; i++ {
+		if r.Chance(0.3) {
+			rules = append(rules, "M:"+h.Hex(h.Pick(r, p.names)))
+		} else {
+			k := h.Pick(r, p.keys)
+			rules = append(rules, "T:"+h.Hex(k)+":"+h.Hex(h.Pick(r, p.vals[string(k)])))
+		}
+	}
+	return strings.Join(rules, ",")
+}
+
+func shardSet(r *h.Rand, n int) string {
+	var ids []string
+	for i := 1; i <= n; i++ {
+		if r.Chance(0.65) {
+			ids = append(ids, fmt.Sprint(i))
+		}
+	}
+	if len(ids) == 0 {
+		ids = append(ids, fmt.Sprint(1+r.Intn(n)))
+	}
+	if r.Chance(0.08) {
+		ids = append(ids, "9") // unknown shard id: skipped by the store
+	}
+	return strings.Join(ids, ",")
+}
+
+func (p pools) clause(r *h.Rand, from [][]byte, prob float64) string {
+	if !r.Chance(prob) {
+		return "-"
+	}
+	op := "E"
+	if r.Chance(0.25) {
+		op = "N"
+	}
+	v := h.Pick(r, from)
+	if r.Chance(0.08) {
+		v = []byte("nope")
+	}
+	return op + ":-:" + h.Hex(v)
+}
+
+func (p pools) query(r *h.Rand, nsh int) string {
+	switch r.Intn(3) {
+	case 0:
+		cond := "-"
+		if r.Chance(0.7) {
+			// mostly conditions on which per-series and measurement-level evaluation agree
+			neqP, emptyP := 0.0, 0.0
+			if r.Chance(0.25) {
+				neqP, emptyP = 0.3, 0.1
+			}
+			cond = strings.Join(p.tree(r, 2, "_name", neqP, emptyP), ",")
+		}
+		return "mn " + p.auth(r) + " " + cond
+	case 1:
+		f := "-"
+		if r.Chance(0.45) {
+			f = strings.Join(p.tree(r, 2, "", 0.3, 0.1), ",")
+		}
+		return "tk " + p.auth(r) + " " + shardSet(r, nsh) + " " + p.clause(r, p.names, 0.3) + " " + p.clause(r, p.keys, 0.35) + " " + f
+	default:
+		f := "-"
+		if r.Chance(0.45) {
+			f = strings.Join(p.tree(r, 2, "", 0.3, 0.1), ",")
+		}
+		return "tv " + p.auth(r) + " " + shardSet(r, nsh) + " " + p.clause(r, p.names, 0.3) + " " + p.clause(r, p.keys, 0.5) + " " + f
+	}
+}
+
+func gen(r *h.Rand, tier string, emit func([]string)) {
+	ncases := 260
+	if tier == "thorough" {
+		ncases = 3000
+	}
+	for c := 0; c < ncases; c++ {
+		p := genPools(r)
+		nsh := 1 + r.Intn(3)
+		ops := []string{fmt.Sprintf("open %d", nsh)}
+		nw := 4 + r.Intn(10)
+		for i := 0; i < nw; i++ {
+			name, tags := p.series(r)
+			ops = append(ops, fmt.Sprintf("w %d %s %s %s", 1+r.Intn(nsh), name, tags, genPts(r)))
+			if r.Chance(0.08) {
+				ops = append(ops, fmt.Sprintf("snap %d", 1+r.Intn(nsh)))
+			}
+		}
+		nphase := 1 + r.Intn(3)
+		for ph := 0; ph < nphase; ph++ {
+			nq := 3 + r.Intn(6)
+			for i := 0; i < nq; i++ {
+				ops = append(ops, p.query(r, nsh))
+			}
+			if ph == nphase-1 {
+				break
+			}
+			// history between query phases: deletes (Store.DeleteSeriesWithPredicate without the
+			// handler's measurement short-cut) and more writes
+			nd := 1 + r.Intn(2)
+			for i := 0; i < nd; i++ {
+				pred := "-"
+				if r.Chance(0.8) {
+					pred = strings.Join(p.tree(r, 1, "_measurement", 0.2, 0), ",")
+				}
+				lo := r.Range(-6, 15)
+				hi := lo + r.Range(0, 30)
+				if r.Chance(0.3) {
+					lo, hi = -100, 100
+				}
+				ops = append(ops, fmt.Sprintf("del %d %d %s n", lo, hi, pred))
+			}
+			if r.Chance(0.5) {
+				name, tags := p.series(r)
+				ops = append(ops, fmt.Sprintf("w %d %s %s %s", 1+r.Intn(nsh), name, tags, genPts(r)))
+			}
+		}
+		if r.Chance(0.03) {
+			ops = append(ops, "frob 1", "tk - - - - -", "mn - E:5f7461674b6579:61")
+		}
+		emit(ops)
+	}
+}
 
 func main() {
 	h.Main(h.Harness{Gen: gen, OpTimeout: 60 * time.Second, NewCase: func() h.CaseRunner { return storeh.New("verif-c42-") }})
